@@ -244,6 +244,25 @@ fn an_obj_precalc_locked(w: &Wire, _s: &[u8]) -> Option<OpenOut> {
     outv(b.precalc_decrypt::<_, _, HeapBytes>(&HeapByteArray::<24>::from(&w.nonce), &k))
 }
 
+#[cfg(feature = "nightly")]
+fn bx_obj_precalc_locked_derived(w: &Wire, _s: &[u8]) -> Option<OpenOut> {
+    let (mac, body) = split16(&w.ct)?;
+    let b: DryocBox<HeapByteArray<32>, HeapByteArray<16>, HeapBytes> = DryocBox::from_parts(HeapByteArray::from(&mac), heap_bytes(body), None);
+    let k = PrecalcSecretKey::precalculate_locked(&w.pk, &w.sk).ok()?;
+    outv(b.precalc_decrypt::<_, _, HeapBytes>(&w.nonce, &k))
+}
+#[cfg(feature = "nightly")]
+fn bx_obj_precalc_lockedro_derived(w: &Wire, _s: &[u8]) -> Option<OpenOut> {
+    let (mac, body) = split16(&w.ct)?;
+    let b: DryocBox<HeapByteArray<32>, HeapByteArray<16>, HeapBytes> = DryocBox::from_parts(HeapByteArray::from(&mac), heap_bytes(body), None);
+    let kp: KeyPair<LockedRO<HeapByteArray<32>>, LockedRO<HeapByteArray<32>>> = KeyPair {
+        public_key: HeapByteArray::<32>::from_slice_into_readonly_locked(&[0u8; 32]).ok()?,
+        secret_key: HeapByteArray::<32>::from_slice_into_readonly_locked(&w.sk).ok()?,
+    };
+    let k = kp.precalculate_readonly_locked(&w.pk).ok()?;
+    outv(b.precalc_decrypt::<_, _, Vec<u8>>(&w.nonce, &k))
+}
+
 // ---------------------------------------------------------------------------------- seal opens
 
 fn sl_open(w: &Wire, s: &[u8]) -> Option<OpenOut> {
@@ -315,6 +334,8 @@ pub fn open_forms() -> Vec<OpenForm> {
         v.push(OpenForm { name: "DryocSecretBox<Locked,LockedBytes>::decrypt(LockedRO key)", family: Secretbox, f: sb_obj_locked, costly: false });
         v.push(OpenForm { name: "DryocBox<Locked,...>::decrypt(LockedRO sk)", family: Box, f: bx_obj_locked, costly: true });
         v.push(OpenForm { name: "DryocBox<Heap,...>::precalc_decrypt(LockedRO key)", family: Afternm, f: an_obj_precalc_locked, costly: false });
+        v.push(OpenForm { name: "PrecalcSecretKey::precalculate_locked+precalc_decrypt<HeapBytes>", family: Box, f: bx_obj_precalc_locked_derived, costly: true });
+        v.push(OpenForm { name: "KeyPair<LockedRO>::precalculate_readonly_locked+precalc_decrypt", family: Box, f: bx_obj_precalc_lockedro_derived, costly: true });
     }
     v
 }
@@ -349,14 +370,20 @@ fn comb(mac: &[u8], body: &[u8]) -> Vec<u8> {
     v
 }
 
+/// caller-provided output buffers are handed over full of stale non-zero bytes (a reused buffer):
+/// the functions must overwrite, not combine with, what is there
+fn dirty(n: usize) -> Vec<u8> {
+    (0..n).map(|i| 0xA7u8.wrapping_add((i as u8).wrapping_mul(29)) | 1).collect()
+}
+
 fn sb_easy(p: &Plain) -> Result<Vec<u8>, String> {
-    let mut c = vec![0u8; p.msg.len() + 16];
+    let mut c = dirty(p.msg.len() + 16);
     es(crypto_secretbox_easy(&mut c, &p.msg, &p.nonce, &p.key))?;
     Ok(c)
 }
 fn sb_detached(p: &Plain) -> Result<Vec<u8>, String> {
-    let mut c = vec![0u8; p.msg.len()];
-    let mut mac = [0u8; 16];
+    let mut c = dirty(p.msg.len());
+    let mut mac = [0x5eu8; 16];
     crypto_secretbox_detached(&mut c, &mut mac, &p.msg, &p.nonce, &p.key);
     Ok(comb(&mac, &c))
 }
@@ -398,13 +425,13 @@ fn sb_obj_enc_locked(p: &Plain) -> Result<Vec<u8>, String> {
 }
 
 fn bx_easy(p: &Plain) -> Result<Vec<u8>, String> {
-    let mut c = vec![0u8; p.msg.len() + 16];
+    let mut c = dirty(p.msg.len() + 16);
     es(crypto_box_easy(&mut c, &p.msg, &p.nonce, &p.pk, &p.sk))?;
     Ok(c)
 }
 fn bx_detached(p: &Plain) -> Result<Vec<u8>, String> {
-    let mut c = vec![0u8; p.msg.len()];
-    let mut mac = [0u8; 16];
+    let mut c = dirty(p.msg.len());
+    let mut mac = [0x5eu8; 16];
     crypto_box_detached(&mut c, &mut mac, &p.msg, &p.nonce, &p.pk, &p.sk);
     Ok(comb(&mac, &c))
 }
@@ -422,8 +449,8 @@ fn bx_easy_inplace(p: &Plain) -> Result<Vec<u8>, String> {
 }
 fn bx_beforenm_afternm(p: &Plain) -> Result<Vec<u8>, String> {
     let k = crypto_box_beforenm(&p.pk, &p.sk);
-    let mut c = vec![0u8; p.msg.len()];
-    let mut mac = [0u8; 16];
+    let mut c = dirty(p.msg.len());
+    let mut mac = [0x5eu8; 16];
     crypto_box_detached_afternm(&mut c, &mut mac, &p.msg, &p.nonce, &k);
     Ok(comb(&mac, &c))
 }
@@ -461,6 +488,12 @@ fn bx_obj_enc_locked(p: &Plain) -> Result<Vec<u8>, String> {
     Ok(b.to_bytes::<HeapBytes>().as_slice().to_vec())
 }
 #[cfg(feature = "nightly")]
+fn bx_obj_precalc_lockedro(p: &Plain) -> Result<Vec<u8>, String> {
+    let k = PrecalcSecretKey::precalculate_readonly_locked(&p.pk, &p.sk).map_err(|e| e.to_string())?;
+    let b: DryocBox<HeapByteArray<32>, HeapByteArray<16>, HeapBytes> = es(DryocBox::precalc_encrypt(&p.msg, &p.nonce, &k))?;
+    Ok(b.to_bytes::<Vec<u8>>())
+}
+#[cfg(feature = "nightly")]
 fn bx_obj_precalc_locked(p: &Plain) -> Result<Vec<u8>, String> {
     let k = PrecalcSecretKey::precalculate_locked(&p.pk, &p.sk).map_err(|e| e.to_string())?;
     let b: DryocBox<HeapByteArray<32>, HeapByteArray<16>, HeapBytes> = es(DryocBox::precalc_encrypt(&p.msg, &p.nonce, &k))?;
@@ -468,7 +501,7 @@ fn bx_obj_precalc_locked(p: &Plain) -> Result<Vec<u8>, String> {
 }
 
 fn sl_seal(p: &Plain) -> Result<Vec<u8>, String> {
-    let mut c = vec![0u8; p.msg.len() + 48];
+    let mut c = dirty(p.msg.len() + 48);
     es(crypto_box_seal(&mut c, &p.msg, &p.pk))?;
     Ok(c)
 }
@@ -516,6 +549,7 @@ pub fn enc_forms() -> Vec<EncForm> {
         v.push(EncForm { name: "LockedBox(secretbox)::encrypt(LockedRO key)+to_bytes<LockedBytes>", family: Secretbox, f: sb_obj_enc_locked });
         v.push(EncForm { name: "LockedBox(box)::encrypt(LockedRO sk)+to_bytes<HeapBytes>", family: Box, f: bx_obj_enc_locked });
         v.push(EncForm { name: "PrecalcSecretKey::precalculate_locked+precalc_encrypt", family: Box, f: bx_obj_precalc_locked });
+        v.push(EncForm { name: "PrecalcSecretKey::precalculate_readonly_locked+precalc_encrypt", family: Box, f: bx_obj_precalc_lockedro });
         v.push(EncForm { name: "DryocBox<Heap,Heap,HeapBytes>::seal+to_bytes<HeapBytes>", family: Seal, f: sl_obj_seal_heap });
     }
     v
